@@ -1,5 +1,143 @@
+(* C06 — the linear-dependency-aware solver (LDAWrapper) is transparent and reuses earlier solutions.
+   Statements only; every proof is `exact <lemma>` (Proofs/LdaP.v, Base/QIP.v); Print Assumptions under each.
+   The model is Model/Lda.v: generic over a field F with involution (class Fld = operations, class FldLaws = laws,
+   explicit premises below) and over the inner solver `inner` (explicit argument with its contract `inner_ok`
+   as a hypothesis of the history).  C06_instance_Qi shows that the Gaussian rationals evaluated by the
+   correspondence check satisfy the laws, so every theorem applies to the evaluated instance. *)
 From Coq Require Import List Bool ZArith.
-From Pymoto Require Import Base.Fld Model.Lda Proofs.LdaP.
-Theorem C06_stub : forall s h, adjoint_mode s h 0 = false.
-Proof. exact stub_adjoint_N. Qed.
-Print Assumptions C06_stub.
+From Pymoto Require Import Base.Fld Base.FldP Base.QI Base.QIP Model.Lda Proofs.LdaP.
+Import ListNotations.
+
+(* storage selection / conjugation per trans mode and symmetry class (12 cases):
+   for truthful flags, solving  S y = conj?(b)  with S = A^H in adjoint mode and S = A otherwise, and returning
+   conj?(y), solves  op_trans(A) x = b.  bridge/C06/ModeBridge.v restates this on the booleans regenerated from
+   the source on every run. *)
+Theorem C06_mode_table : forall (F : Type) (I : Fld F), FldLaws F ->
+  forall (sym herm : bool) (t : Z) (A : mat F) (y b : vec F),
+  trans_valid t = true -> truthful sym herm A ->
+  mv (if adjoint_mode sym herm t then mH A else A) y = (if conj_mode sym herm t then vconj b else b) ->
+  mv (op_mat t A) (if conj_mode sym herm t then vconj y else y) = b.
+Proof. intros F I L. exact (@mode_table F I L). Qed.
+Print Assumptions C06_mode_table.
+
+(* get_diagonal_indices marks only dofs whose row AND column vanish off the diagonal (and whose diagonal entry is
+   non-zero): exactly what solving them by division needs *)
+Theorem C06_diag_detect_sound : forall (F : Type) (I : Fld F), FldLaws F ->
+  forall (n : nat) (A : mat F), wfm n A -> Decoupled n A (get_diagonal_indices A).
+Proof. intros F I L. exact (@diag_detect_sound F I L). Qed.
+Print Assumptions C06_diag_detect_sound.
+
+(* sanity instance, exhaustive: on all 530 matrices with entries in {0,1} of size n <= 3 the detected mask is
+   exactly the set of decoupled dofs (soundness and completeness) *)
+Theorem C06_diag_detect_exact_n3 :
+  forallb (fun n => forallb (detect_exact n) (mats01 n)) [1; 2; 3]%nat = true /\
+  map (fun n => length (mats01 n)) [1; 2; 3]%nat = [2; 16; 512]%nat.
+Proof. exact diag_detect_exact_n3. Qed.
+Print Assumptions C06_diag_detect_exact_n3.
+
+(* _do_solve_1rhs: under the database invariant and decoupling every returned column solves A x = rhs exactly,
+   for every block of right-hand sides (new, repeated, zero, dependent), every x0, every dtype tag;
+   and the database invariant (every stored pair satisfies A x = b, x lives on the non-diagonal dofs, |b|^2 <> 0,
+   later b's are orthogonal to earlier ones) is preserved *)
+Theorem C06_db_invariant : forall (F : Type) (I : Fld F), FldLaws F ->
+  forall (n : nat) (A : mat F) (cplxA : bool) (m : list bool) (db : list pair) (adj : bool)
+         (solve_fn : list (vec F) -> option (list (vec F)) -> list (vec F))
+         (crhs isvec : bool) (RHS : list (vec F)) (X0 : option (list (vec F))),
+  wfm n A -> Decoupled n A m -> db_inv n A m db -> solve_fn_ok n A solve_fn ->
+  Forall (fun r => length r = n) RHS ->
+  Forall2 (fun rhs x => length x = n /\ mv A x = rhs) RHS
+          (fst (fst (do_solve A cplxA m db adj solve_fn crhs isvec RHS X0))) /\
+  db_inv n A m (snd (fst (do_solve A cplxA m db adj solve_fn crhs isvec RHS X0))).
+Proof. intros F I L. exact (@do_solve_correct F I L). Qed.
+Print Assumptions C06_db_invariant.
+
+(* update() empties both databases (and the invariant holds again for the new matrix: C06_update_invariant) *)
+Theorem C06_update_clears : forall (F : Type) (I : Fld F) (st : @state F) (c : bool) (A : mat F),
+  s_dbN (update st c A) = [] /\ s_dbH (update st c A) = [].
+Proof. intros F I. exact (@update_clears F I). Qed.
+Print Assumptions C06_update_clears.
+
+Theorem C06_update_invariant : forall (F : Type) (I : Fld F), FldLaws F ->
+  forall inner (st : @state F) (c : bool) (A : mat F),
+  wfm (length A) A -> inner_ok inner (length A) A -> (c = false -> mconj A = A) ->
+  (s_sym st = Some true -> mtrans A = A) -> (s_herm st = Some true -> mH A = A) ->
+  state_inv inner (update st c A).
+Proof. intros F I L. exact (@update_inv F I L). Qed.
+Print Assumptions C06_update_invariant.
+
+(* solve(): in a state satisfying the invariant (flags truthful for the current A is part of it) the returned
+   vectors solve op_trans(A) x = b exactly, no error is raised, the invariant is preserved *)
+Theorem C06_solve_correct : forall (F : Type) (I : Fld F), FldLaws F ->
+  forall inner (st : @state F) (c : bool) (A : mat F) (crhs isvec : bool) (RHS : list (vec F))
+         (X0 : option (list (vec F))) (t : Z),
+  state_inv inner st -> s_A st = Some (c, A) -> trans_valid t = true ->
+  Forall (fun r => length r = length A) RHS ->
+  exists res, snd (solve inner st crhs isvec RHS X0 t) = inr res /\
+              Forall2 (fun b x => mv (op_mat t A) x = b) RHS (r_x res) /\
+              state_inv inner (fst (solve inner st crhs isvec RHS X0 t)).
+Proof. intros F I L. exact (@solve_correct F I L). Qed.
+Print Assumptions C06_solve_correct.
+
+(* ANY history of update()/solve() (hist_ok: matrices square with the inner-solver contract, dtype tags truthful,
+   cached class flags truthful for every later matrix, right-hand sides of the right length, trans in N/T/H):
+   every call returns, and returns an exact solution of the requested system of the current matrix *)
+Theorem C06_history_correct : forall (F : Type) (I : Fld F), FldLaws F ->
+  forall inner (ops : list (@op F)) (st : @state F),
+  state_inv inner st -> hist_ok inner st ops -> answers_ok inner st ops.
+Proof. intros F I L. exact (@history_correct F I L). Qed.
+Print Assumptions C06_history_correct.
+
+Theorem C06_history_from_fresh_wrapper : forall (F : Type) (I : Fld F), FldLaws F ->
+  forall inner (sym herm : option bool) (ops : list (@op F)),
+  hist_ok inner (init_state sym herm) ops -> answers_ok inner (init_state sym herm) ops.
+Proof. intros F I L inner sym herm ops. exact (@history_correct F I L inner ops _ (init_state_inv inner sym herm)). Qed.
+Print Assumptions C06_history_from_fresh_wrapper.
+
+(* reuse: if the (non-diagonal part of the, possibly conjugated) right-hand sides lie in the span of the stored
+   right-hand sides of the selected storage, and no dtype narrowing applies (complex system, or no complex vector
+   stored), the inner solver is not called and the state does not change.
+   partial: for a real rhs with complex vectors stored the implementation skips stored vectors (known finding K01). *)
+Theorem C06_reuse_partial : forall (F : Type) (I : Fld F), FldLaws F ->
+  forall inner (st : @state F) (c : bool) (A : mat F) (sym herm crhs isvec : bool) (RHS : list (vec F))
+         (X0 : option (list (vec F))) (t : Z),
+  state_inv inner st -> s_A st = Some (c, A) -> s_sym st = Some sym -> s_herm st = Some herm ->
+  trans_valid t = true -> Forall (fun r => length r = length A) RHS ->
+  (c || crhs = true \/ Forall (fun p => p_tag p = false) (sel_db st sym herm t)) ->
+  Forall (fun rhs => span (length A) (map p_b (sel_db st sym herm t))
+                          (pn (s_mask st) (if conj_mode sym herm t then vconj rhs else rhs))) RHS ->
+  exists res, snd (solve inner st crhs isvec RHS X0 t) = inr res /\ r_call res = None /\
+              fst (solve inner st crhs isvec RHS X0 t) = st.
+Proof. intros F I L. exact (@solve_reuse F I L). Qed.
+Print Assumptions C06_reuse_partial.
+
+(* the model omits `badd /= bnrm; xadd /= bnrm`: the three expressions through which a stored pair is used are
+   invariant under a common non-zero scaling of the pair *)
+Theorem C06_normalisation_irrelevant : forall (F : Type) (I : Fld F), FldLaws F ->
+  forall (s : F) (v x b : vec F), s <> f0 -> nrm2 b <> f0 ->
+  vscale (fdiv (hdot v (vscale s b)) (nrm2 (vscale s b))) (vscale s b) = vscale (fdiv (hdot v b) (nrm2 b)) b /\
+  vscale (fdiv (hdot v (vscale s b)) (nrm2 (vscale s b))) (vscale s x) = vscale (fdiv (hdot v b) (nrm2 b)) x /\
+  (vscale (fdiv (hdot v (vscale s x)) (nrm2 (vscale s x))) (vscale s x) = vscale (fdiv (hdot v x) (nrm2 x)) x \/
+   nrm2 x = f0).
+Proof. intros F I L. exact (@lda_normalisation_irrelevant F I L). Qed.
+Print Assumptions C06_normalisation_irrelevant.
+
+(* the Gaussian rationals Qc[i] evaluated in the correspondence check satisfy the laws *)
+Theorem C06_instance_Qi : @FldLaws C FldC.
+Proof. exact FldLawsC. Qed.
+Print Assumptions C06_instance_Qi.
+
+(* class flags are cached from the first update(): a history that changes the matrix class is outside hist_ok,
+   and the faithful model then returns a wrong answer (documentation of the hypothesis; LinearSolver.update
+   documents "a new matrix of the same structure") *)
+Theorem C06_class_change_refuted :
+  is_symmetric cc_A1 = true /\ is_symmetric cc_A2 = false /\ cc_answer_solves = false.
+Proof. exact class_change_wrong. Qed.
+Print Assumptions C06_class_change_refuted.
+
+(* non-vacuity: a concrete history (zero-diagonal symmetric matrix, vector / scaled / complex block right-hand
+   sides, x0, all three modes) meets every hypothesis of C06_history_correct, and it is non-trivial:
+   inner-solver columns per call = 1, 0 (reuse), 1 (one of two columns reused) *)
+Example C06_nonvacuous_history : hist_ok inner_swap (init_state None None) nv_ops.
+Proof. exact nv_hist_ok. Qed.
+Example C06_nonvacuous_calls : call_pattern (run inner_swap (init_state None None) nv_ops) = [9; 1; 0; 1]%nat.
+Proof. exact nv_calls. Qed.
